@@ -171,7 +171,10 @@ def run(case):
         cell("cat", kind, lambda: lo_cat([op, Yop], dim=dim), lambda: torch.cat([dense, Y], dim=dim))
     # ---- expand ------------------------------------------------------------------------------------
     exp_kinds = {"rows+1": (*opb, r + 1, c), "cols+1": (*opb, r, c + 1), "badbatch": (3, r, c) if opb else None,
-                 "fewer_dims": (c,)}
+                 "fewer_dims": (c,),
+                 # broadcast-compatible with the operator's batch shape, but not an expansion of it (torch refuses all three)
+                 "shrink_batch": (*(1 for _ in opb), r, c) if opb else None, "drop_batch": (r, c) if opb else None,
+                 "one_under_batch": (3, *(1 for _ in opb), r, c) if opb else None}
     for kind, shp in exp_kinds.items():
         if shp is None:
             continue
